@@ -97,12 +97,14 @@ structure St where
   tm : T → Nat                   -- ghost: index of the build task sent for the target
   wk : T → Nat                   -- ghost: index of the worker that received it
   failed : Bool                  -- `progress.failed` / `buildFailed`: some failure was logged (decides the exit status)
+  ext : Bool                     -- ghost: the queues were closed from outside the counting (`stop`, `asyncError`) or a task was dropped
+  why : T → T                    -- ghost: the failed dependency that made the target DependencyFailed
 
 def St.init : St :=
   { st := fun _ => .inactive, fin := fun _ => false, qs := fun _ => none, nextQ := 0, chan := fun _ => none,
     nextM := 0, ws := fun _ => none, nextW := 0, numPending := 1, stopped := false, initDone := false,
     starts := fun _ => 0, nres := fun _ => 0, res := fun _ => none,
-    bq := fun _ => 0, tm := fun _ => 0, wk := fun _ => 0, failed := false }
+    bq := fun _ => 0, tm := fun _ => 0, wk := fun _ => 0, failed := false, ext := false, why := fun _ => 0 }
 
 /-- static parameters of one invocation -/
 structure Cfg where
@@ -158,7 +160,7 @@ def queuerStep (s : St) (i : Nat) (q : Queuer) : Option St :=
       if (s.st d).isBad then
         some { s with st := upd s.st q.t .depFailed, fin := upd s.fin q.t true,
                       nres := upd s.nres q.t (s.nres q.t + 1), res := upd s.res q.t (some .depFailed),
-                      qs := upd s.qs i (some { q with ph := .done }) }
+                      qs := upd s.qs i (some { q with ph := .done }), why := upd s.why q.t d }
       else some { s with qs := upd s.qs i (some { q with ph := .waitDeps r }) }
     else none
   | .waitDeps [] =>
@@ -181,7 +183,7 @@ def fire (s : St) : Action → Option St
     | some q =>
       match q.ph with
       | .queueDeps (_ :: _) =>
-        some { s with qs := upd s.qs i (some { q with ph := .done }), stopped := true, failed := true }
+        some { s with qs := upd s.qs i (some { q with ph := .done }), stopped := true, failed := true, ext := true }
       | _ => none
     | none => none
   | .take m =>
@@ -191,7 +193,7 @@ def fire (s : St) : Action → Option St
     | none => none
   | .drop m =>
     match s.chan m with
-    | some _ => if s.stopped then some { s with chan := upd s.chan m none } else none
+    | some _ => if s.stopped then some { s with chan := upd s.chan m none, ext := true } else none
     | none => none
   | .workerStart w =>
     match s.ws w with
@@ -218,7 +220,7 @@ def fire (s : St) : Action → Option St
     | some ⟨_, .finished⟩ => some (taskDone { s with ws := upd s.ws w none })
     | _ => none
   | .initDone => if s.initDone then none else some (taskDone { s with initDone := true })
-  | .stop => some { s with stopped := true }
+  | .stop => some { s with stopped := true, ext := true }
 
 /-! The wait loop as the regenerated facts describe it.  The pinned code tests nothing before `WaitForBuild`; a
 state test placed there (`if t.State() >= X { continue }`) would let the queuer pass a dependency in a state of
